@@ -72,6 +72,19 @@ type backendConn struct {
 	PlayerName string
 	OnPacket  func(rec *pktRec) // called by the play reader for every packet
 	KeepAlives []int64 // keep-alive ids received from the proxy (replies)
+	KALog      []kaEvent
+}
+
+type kaEvent struct {
+	Seq  int
+	Sent bool // true: this backend sent the keep-alive; false: it received a reply
+	ID   int64
+}
+
+// SendKeepAlive sends a keep-alive and logs it.
+func (bc *backendConn) SendKeepAlive(id int64) error {
+	bc.KALog = append(bc.KALog, kaEvent{Seq: bc.b.w.nextSeq(), Sent: true, ID: id})
+	return bc.send(&packet.KeepAlive{RandomID: id})
 }
 
 // Dial implements proxy.ServerDialer: called by Gate's serverConnection.dial.
@@ -268,6 +281,10 @@ func (bc *backendConn) run() {
 			if _, ok := rec.Packet.(*cfgpacket.FinishedUpdate); ok {
 				break
 			}
+			if ka, ok := rec.Packet.(*packet.KeepAlive); ok {
+				bc.KeepAlives = append(bc.KeepAlives, ka.RandomID)
+				bc.KALog = append(bc.KALog, kaEvent{Seq: bc.b.w.nextSeq(), ID: ka.RandomID})
+			}
 			if bc.OnPacket != nil {
 				bc.OnPacket(rec)
 			}
@@ -312,6 +329,7 @@ func (bc *backendConn) playReader() {
 		switch p := rec.Packet.(type) {
 		case *packet.KeepAlive:
 			bc.KeepAlives = append(bc.KeepAlives, p.RandomID)
+			bc.KALog = append(bc.KALog, kaEvent{Seq: bc.b.w.nextSeq(), ID: p.RandomID})
 		case *cfgpacket.FinishedUpdate:
 			// acknowledgement of StartUpdate (re-configuration): not used by the model
 		case *plugin.Message:
